@@ -46,10 +46,29 @@ def DF3():
 
 
 def DFG(bad=False):
+    """grouped rows; bad=True is the SAME set of rows in a non-contiguous order"""
     import polars as pl
 
-    k = ["x", "y", "x", "y"] if bad else ["x", "x", "y", "y"]
-    return pl.DataFrame({"k": k, "a": ["D0.1", "D1.1", "D2.1", "D3.1"]})
+    rows = [("x", "D0.1"), ("x", "D1.1"), ("y", "D2.1"), ("y", "D3.1")]
+    if bad:
+        rows = [rows[0], rows[2], rows[1], rows[3]]
+    return pl.DataFrame({"k": [r[0] for r in rows], "a": [r[1] for r in rows]})
+
+
+LONG = "D0.0 " + "wide words " * 9  # one line in a 4.7 in column, three lines in a 1.6 in column
+
+
+def DFW():
+    import polars as pl
+
+    # only column a carries the long text, so the row height really depends on a's width
+    return pl.DataFrame({"a": [LONG.replace("D0", f"D{r}") for r in range(4)], "b": [f"D{r}.1" for r in range(4)]})
+
+
+def DF3R():
+    import polars as pl
+
+    return pl.DataFrame({"a": ["D0.0", "D1.0", "D2.0"], "b": [1, 2, 3], "c": ["D0.2", "D1.2", "D2.2"]})
 
 
 def mk_shared():
@@ -82,6 +101,13 @@ def _pool():
         "bad": lambda sh: rtf.RTFDocument(df=DFG(bad=True), rtf_body=rtf.RTFBody(group_by="k", text_color="blue")),
         "multi": lambda sh: rtf.RTFDocument(df=[DF2(), DF3()], rtf_body=[rtf.RTFBody(text_color="red"), rtf.RTFBody(text_color="green")],
                                             rtf_footnote=rtf.RTFFootnote(text="F0", text_color="purple")),
+        # fails LATE: a frame without columns makes the body raise after the coloured title has been rendered
+        "late": lambda sh: rtf.RTFDocument(df=__import__("polars").DataFrame(), rtf_title=rtf.RTFTitle(text="T0", text_color="green")),
+        # last section wider than the first, several rows, no footnote
+        "multiw": lambda sh: rtf.RTFDocument(df=[DF2(), DF3R()], rtf_body=[rtf.RTFBody(), rtf.RTFBody()]),
+        # the same long texts at the same column positions in columns of different width (page fill differs)
+        "narrow": lambda sh: rtf.RTFDocument(df=DFW(), rtf_page=rtf.RTFPage(nrow=8), rtf_body=rtf.RTFBody(col_rel_width=[1, 3])),
+        "wide": lambda sh: rtf.RTFDocument(df=DFW(), rtf_page=rtf.RTFPage(nrow=8), rtf_body=rtf.RTFBody(col_rel_width=[3, 1])),
         "figure": lambda sh: rtf.RTFDocument(rtf_figure=rtf.RTFFigure(figures=[_png_path()], fig_width=2, fig_height=1.5),
                                              rtf_title=rtf.RTFTitle(text="T0", text_color="orange")),
         # shA / shB hold the same component objects AND the same DataFrame; same column count
@@ -94,7 +120,7 @@ def _pool():
     }
 
 
-POOL_NAMES = ["plain", "red", "paged", "fnall", "grouped", "bad", "multi", "figure", "shA", "shB", "shC"]
+POOL_NAMES = ["plain", "red", "paged", "fnall", "grouped", "bad", "late", "multi", "multiw", "narrow", "wide", "figure", "shA", "shB", "shC"]
 SHARES = {"shA": ("body", "header", "page", "sub", "fn", "df"), "shB": ("body", "header", "page", "sub", "fn", "df"),
           "shC": ("body", "header", "page")}
 NCOLS = {"shA": 2, "shB": 2, "shC": 1}
